@@ -82,7 +82,7 @@ def gen_sender(rng, tier, force_w=None, rep=None):
             elif r < 0.75:
                 evs.append("T")
             elif r < 0.85:
-                evs.append("E@0")
+                evs.append("E%s@0" % rng.choice(["", "1", "2", "3", "4", "5", "6", "7"]))
             else:
                 evs.append(rng.choice(["G@0", "O@1", "G@%d" % tmo]))
     else:
@@ -94,7 +94,7 @@ def gen_sender(rng, tier, force_w=None, rep=None):
         dup = "A%d@0" % last
         stale = "A%d@0" % ((last - 1) % 65536)
         k = rng.randint(0, 5)
-        evs += rng.choice([["T"] * 7, ["E@0"], ["T", "T", "G@0", "T", "O@0", "T", "T"], ["T"] * 3 + base[cut:cut + 1] + ["T"] * 7,
+        evs += rng.choice([["T"] * 7, ["E%s@0" % rng.choice(["", "1", "2", "3", "4", "5", "6", "7"])], ["T", "T", "G@0", "T", "O@0", "T", "T"], ["T"] * 3 + base[cut:cut + 1] + ["T"] * 7,
                            ["T"] * k + [dup] + ["T"] * 8, [dup] * 6 + ["T"] * 8, ["T"] * k + [stale] * (6 - k) + ["T"] * 8,
                            [rng.choice(["T", dup, stale, "G@0", "O@0"]) for _ in range(8)] + ["T"] * 8])
     if rng.random() < 0.2:
@@ -126,6 +126,10 @@ def directed_sender():
     L.append("snd 8 2 5000 1 0 - A1@0")
     L.append("snd 8 2 5000 1 0 gen:16:1 A2@0 A3@0")
     L.append("snd 8 1 5000 3 0 gen:8:1 A1@0 A2@0")
+    # a peer ERROR ends the transfer whatever its code
+    for code in range(8):
+        L.append("snd 8 2 5000 1 0 gen:40:9 A2@0 E%d@0 T T T A4@0" % code)
+        L.append("snd 8 1 5000 1 1 gen:20:1 A0@0 A1@0 E%d@0 T A2@0" % code)
     # a burst that takes longer than the retransmission interval to send, then duplicate/stale ACKs: nothing may be retransmitted
     L.append("snd 8 8 1000 4 1 gen:60:1 S100 A0@0 A0@0 A0@5 A8@0")
     L.append("snd 8 4 1000 1 0 gen:30:3 S300 A0@0 A0@0 A2@5 A2@0 A4@0")
@@ -168,9 +172,9 @@ def gen_receiver(rng, tier, rep=None):
         elif r < 0.96:
             evs.append(rng.choice(["A%d" % rng.randint(0, 5), "O"]))
         else:
-            evs.append(rng.choice(["E", "T T T T T T", "D%d:%s" % (n, hx(b"\x01" * min(b + 3, 30)))]))
+            evs.append(rng.choice(["E" + rng.choice(["", "1", "2", "3", "4", "5", "6", "7"]), "T T T T T T", "D%d:%s" % (n, hx(b"\x01" * min(b + 3, 30)))]))
     if rng.random() < 0.2:
-        evs.append(rng.choice(["T T T T T T T", "E", "D1:-"]))
+        evs.append(rng.choice(["T T T T T T T", "E" + rng.choice(["", "3", "5"]), "D1:-"]))
     return "rcv %d %d %d %d full %s" % (b, w, rp, clean, " ".join(evs))
 
 
@@ -188,6 +192,8 @@ def directed_receiver():
     L.append("rcv 8 2 1 0 full D1:0102030405060708 E")
     L.append("rcv 8 1 1 1 full D1:-")
     L.append("rcv 8 3 2 1 full D1:0102030405060708 D2:0102030405060708 D3:0102030405060708 D4:01")
+    for code in range(8):
+        L.append("rcv 8 2 1 1 full D1:0102030405060708 E%d D2:0102030405060708 D3:01" % code)
     # windows wider than one vectored write takes (IOV_MAX = 1024): a flush of more than 1024 buffered blocks
     def run(lo, hi, b):
         return " ".join("D%d:%s" % (k % 65536, "".join("%02x" % ((k * 7 + i) & 255) for i in range(b))) for k in range(lo, hi + 1))
@@ -527,7 +533,15 @@ class C01(WorkerProp):
 
     def generate(self, tier, rng):
         n = self.n_quick if tier == "quick" else self.n_thorough
-        return directed_sender() + [gen_sender(rng, tier) for _ in range(n)]
+        L = directed_sender() + [gen_sender(rng, tier) for _ in range(n)]
+        # volume: files of several megabytes with windows of several megabytes, block sizes that are not powers of two (buffering and
+        # read-ahead thresholds inside the sender must not change what a block carries)
+        L.append("snd 65464 128 5000 1 0 gen:9437184:3 A128@0 A145@0")
+        if tier == "thorough":
+            L.append("snd 1428 4000 5000 1 0 gen:9437184:5 A4000@0 A6609@0")
+            L.append("snd 9000 1000 5000 1 0 gen:20000003:9 A1000@0 A2000@0 A2223@0")
+            L.append("snd 512 65535 5000 1 0 gen:40000000:11 A65535@0 A12590@0")
+        return L
 
 
 class C07(WorkerProp):
@@ -558,7 +572,38 @@ class C08(WorkerProp):
         for _ in range(n):
             L.append(gen_sender(rng, tier, force_w=rng.choice([None, None, 65535, 65534, 1, 2, 3])))
         L += [gen_receiver(rng, tier) for _ in range(n // 3)]
+        # volume: windows of many megabytes (byte-count thresholds inside the workers must not change when the acknowledgement falls due)
+        for (b, w) in ([(65464, 150)] if tier == "quick" else [(65464, 150), (8192, 2000), (65464, 1100)]):
+            evs = ["D%d:gen:%d:%d" % (k % 65536, b, k) for k in range(1, w + 1)] + ["D%d:gen:5:%d" % ((w + 1) % 65536, w + 1)]
+            L.append("rcv %d %d 1 1 len %s" % (b, w, " ".join(evs)))
         return L
+
+    def compare(self, line, model, impl):
+        return model == "skip" or WorkerProp.compare(self, line, model, impl)
+
+    def oracle(self, line, impl):
+        if line.startswith("rcv ") and line.split(" ")[5] == "len":
+            r = receiver_len_oracle(line, impl)
+            if r:
+                return r
+            # the acknowledgement falls due with the w-th in-order block
+            c = RCase(line)
+            left = impl.rsplit(" => ", 1)[0]
+            groups = [[] if p == "." else p.split(" ") for p in left.split(" | ")]
+            k = 0
+            since = 0
+            for i, g in enumerate(groups):
+                kind, n, payload = c.events[i]
+                if kind == "data" and n == (k + 1) % 65536:
+                    k += 1
+                    since += 1
+                    due = since >= c.w or len(payload) < c.b
+                    if due and not g:
+                        return ("no acknowledgement after %s" % ("windowsize in-order blocks" if since >= c.w else "the final block"), "missing-ack")
+                if g:
+                    since = 0
+            return None
+        return WorkerProp.oracle(self, line, impl)
 
 
 class C02(WorkerProp):
@@ -1005,7 +1050,7 @@ class C13(WorkerProp):
             t = l.split(" ")
             # force an abort at a random point of the script
             k = rng.randint(6, len(t))
-            t = t[:k] + rng.choice([["E"], ["T"] * 6, ["T", "A1", "T", "T", "O", "T", "T"]])
+            t = t[:k] + rng.choice([["E" + rng.choice(["", "1", "2", "3", "4", "5", "6", "7"])], ["T"] * 6, ["T", "A1", "T", "T", "O", "T", "T"]])
             L.append(" ".join(t))
         for b, w in [(8, 1), (8, 2), (8, 4), (512, 3)]:
             for clean in (0, 1):
@@ -1023,6 +1068,10 @@ class C13(WorkerProp):
                     if "o" in flags:
                         # --overwrite: the aborted upload replaces a file that existed before (it is truncated at once)
                         L.append("abort %s %s %s %s %d" % (root, flags, fs, rq("wrq", b"old", opts).hex(), nb))
+        # the code of the aborting ERROR packet must not matter, in either port mode (in single-port mode it travels through the listener)
+        for flags in ["-", "s", "k", "sk"]:
+            for code in range(8):
+                L.append("abort %s %s srv/old=0102 %s %d c%d" % (root, flags, rq("wrq", b"up", rng.choice([(), (("blksize", 8),), (("windowsize", 2),)])).hex(), rng.choice([1, 2, 3]), code))
         # the text of the aborting ERROR packet must not matter: long messages, multi-byte characters around plausible length limits
         for flags in ["-", "s"]:
             for lim in [16, 32, 64, 80, 100, 128, 200, 255, 256] if tier == "thorough" else [32, 64, 128, 255]:
